@@ -1100,7 +1100,14 @@ def remove_duplicate_functions(source: str, preserve: Collection[str]) -> str:
             node_renamings[node].add(substitute)
 
     if node_renamings:
-        source = _fix_variable_names(source, node_renamings, preserve)
+        renamed_source = _fix_variable_names(source, node_renamings, preserve)
+        if renamed_source != source:
+            # The names have other lengths now, find the functions to delete in the new code
+            if not core.is_valid_python(renamed_source):
+                return source
+            renamed_root = core.parse(renamed_source)
+            delete = {renamed_root.body[root.body.index(node)] for node in delete}
+            source, root = renamed_source, renamed_root
     if delete:
         source = processing.remove_nodes(source, delete, root)
 
